@@ -18,7 +18,8 @@ META = {
     "required": ["monitor:type-resolve", "monitor:hugr-resolve", "monitor:wire-invariance", "monitor:model-invariance",
                  "monitor:idempotence", "monitor:model-compared", "monitor:hugr-model-compared", "feature:partial-registry", "feature:empty-registry",
                  "feature:missing-def", "feature:opaque-inside-opaque-args", "feature:resolved-op",
-                 "feature:unresolved-op", "feature:polyfunc", "feature:perturbed-runtime-reqs", "feature:computed-signature-op", "feature:lookalike-names"],
+                 "feature:unresolved-op", "feature:polyfunc", "feature:perturbed-runtime-reqs", "feature:computed-signature-op", "feature:lookalike-names",
+                 "monitor:second-registry", "feature:opaque-inside-resolved-type"],
     "reach": ["hugr.tys:Opaque.resolve", "hugr.ops:Custom.resolve", "hugr.hugr.base:Hugr.resolve_extensions",
               "hugr.tys:Sum.resolve", "hugr.tys:FunctionType.resolve", "hugr.ext:ExtensionRegistry.get_extension"],
     "assumptions": [
@@ -229,8 +230,47 @@ def check_type_case(ctx, case, stratum="type"):
     z = y.resolve(reg)
     if tview(z) != got:
         bad("resolve-not-idempotent", "resolve(resolve(x))", "== resolve(x)", "differs")
+    if case.get("reg2") is not None:
+        # second stage: the (now partly definition-backed) result is resolved against ANOTHER registry -- opaque types
+        # left inside the arguments of an already definition-backed type are within "every depth" too
+        spec2 = case["reg2"]
+        reg2 = make_registry(spec2, exts)
+        has_type2, _ = has_fns(spec2, universe)
+        mixed = _opaque_under_exttype(got)
+        if mixed:
+            ctx.feat("feature:opaque-inside-resolved-type")
+        ctx.count("monitor:second-registry")
+        want2 = expected(got, has_type2)
+        y2 = y.resolve(reg2)
+        got2 = tview(y2)
+        if got2 != want2:
+            from vf.oracles.observe import diff
+
+            p = diff(want2, got2)[0]
+            bad("type-resolution-rule[second-registry]", p[0], p[1], p[2])
+        j2 = y2._to_serial_root().model_dump(mode="json") if not isinstance(y2, tys.PolyFuncType) \
+            else y2._to_serial().model_dump(mode="json")
+        if j2 != j0:
+            from vf.oracles.observe import diff
+
+            p = diff(j0, j2)[0]
+            bad("type-wire-changed[second-registry]", p[0], p[1], p[2])
+        if _model(y2) != m0:
+            bad("type-model-changed[second-registry]", "to_model", m0, _model(y2))
+        if y2.type_bound() != x.type_bound():
+            bad("type-bound-changed[second-registry]", "type_bound", x.type_bound().value, y2.type_bound().value)
     hits = sum(1 for _ in _resolved_positions(before, has_type))
     return len(depths) >= 2 and len(set(depths)) >= 2 and hits >= 1
+
+
+def _opaque_under_exttype(v, inside=False):
+    if isinstance(v, list):
+        if v and v[0] == "Opaque" and inside:
+            return True
+        if v and v[0] == "ExtType":
+            return any(_opaque_under_exttype(a, True) for a in v[3])
+        return any(_opaque_under_exttype(x, inside) for x in v)
+    return False
 
 
 def _opaque_in_opaque_args(v, inside=False):
@@ -435,6 +475,8 @@ def run(ctx):
         universe.setdefault("verif.test", {"types": [], "ops": []})
         universe["verif.test"]["types"] = sorted(set(universe["verif.test"]["types"]) | set(g._defs))
         case = {"ty": d, "reg": gen_registry_spec(r, universe), "wrap": r.choice([None, None, "poly", "arg"])}
+        if i % 2:
+            case["reg2"] = gen_registry_spec(r, universe)
         nt = ctx.guard("type", case, check_type_case, ctx, case)
         ctx.case("type", case, bool(nt))
     for i in ctx.mine(ctx.n(600, 20000)):
